@@ -140,3 +140,73 @@ def walk(opts, prefix=()):
         yield prefix + (o["n"],), o
         if o["k"] == "sec" and o.get("sub"):
             yield from walk(o["sub"], prefix + (o["n"],))
+
+
+# ---------------------------------------------------------------------------------------------
+# random schemas (Hypothesis)
+from hypothesis import strategies as st  # noqa: E402
+
+NAME_POOL = ["a", "A", "b", "opt", "Opt", "x-y", "x_1", "root", "include", "s", "il", "tm", "k.1", "zeta", "B"]
+
+
+def _parsed_default(kind, draw):
+    n = draw(st.integers(0, 3))
+    if n == 0:
+        return draw(st.sampled_from([None, "", "{}"]))
+    pool = {"int": ["1", "20", "-3", "0x10"], "float": ["1.5", "2", "-0.25"], "bool": ["true", "no", "on"],
+            "str": ["a", "\"b c\"", "'d'", "e"]}[kind]
+    return "{" + ", ".join(draw(st.sampled_from(pool)) for _ in range(n)) + "}"
+
+
+@st.composite
+def schemas(draw, depth=0, max_depth=3, nocase=False, allow_func=True, allow_ptr=True, allow_deprecated=True,
+            allow_keystrval=True, allow_single_title=True, cb_parse=False):
+    n = draw(st.integers(1, 6 if depth == 0 else 4))
+    names = draw(st.lists(st.sampled_from(NAME_POOL), min_size=n, max_size=n,
+                          unique_by=(lambda x: x.lower()) if nocase else (lambda x: x)))
+    opts = []
+    for name in names:
+        kinds = ["int", "float", "bool", "str", "ilist", "flist", "blist", "slist", "int", "str"]
+        if depth < max_depth:
+            kinds += ["sec", "sec", "sec"]
+        if allow_func:
+            kinds.append("func")
+        if allow_ptr:
+            kinds += ["ptr", "plist"]
+        k = draw(st.sampled_from(kinds))
+        fl = 0
+        if k in ("int", "float", "bool", "str", "ilist", "flist", "blist", "slist") and allow_deprecated and draw(st.integers(0, 9)) == 0:
+            fl |= F_DEPRECATED | (F_DROP if draw(st.booleans()) else 0)
+        if k in ("int", "float", "bool", "str") and draw(st.integers(0, 5)) == 0:
+            fl |= F_NODEFAULT
+        if k == "int":
+            opts.append(o_int(name, draw(st.sampled_from([0, 5, -7, 1000000])), fl))
+        elif k == "float":
+            opts.append(o_float(name, draw(st.sampled_from(["0.0", "1.5", "-2.25", "1e3"])), fl))
+        elif k == "bool":
+            opts.append(o_bool(name, draw(st.integers(0, 1)), fl))
+        elif k == "str":
+            opts.append(o_str(name, draw(st.sampled_from([None, "dflt", "", "two words", "q\"uote"])), fl))
+        elif k in ("ilist", "flist", "blist", "slist"):
+            kk = {"i": "int", "f": "float", "b": "bool", "s": "str"}[k[0]]
+            if draw(st.integers(0, 7)) == 0:
+                fl |= F_NODEFAULT
+            opts.append(o_list(kk, name, _parsed_default(kk, draw), fl))
+        elif k == "func":
+            opts.append(o_func(name))
+        elif k == "ptr":
+            opts.append(o_ptr(name))
+        elif k == "plist":
+            opts.append(o_ptr(name, F_LIST))
+        else:
+            sf = draw(st.sampled_from([0, 0, F_MULTI, F_MULTI | F_TITLE, F_MULTI | F_TITLE, F_MULTI | F_TITLE | F_NO_TITLE_DUPES,
+                                       F_NODEFAULT, F_TITLE if allow_single_title else 0, F_KEYSTRVAL if allow_keystrval else 0,
+                                       (F_KEYSTRVAL | F_MULTI | F_TITLE) if allow_keystrval else F_MULTI]))
+            if sf & F_KEYSTRVAL and draw(st.booleans()):
+                sub = None if draw(st.booleans()) else []
+            else:
+                sub = draw(schemas(depth=depth + 1, max_depth=max_depth, nocase=nocase, allow_func=allow_func, allow_ptr=allow_ptr,
+                                   allow_deprecated=allow_deprecated, allow_keystrval=allow_keystrval,
+                                   allow_single_title=allow_single_title))
+            opts.append(o_sec(name, sub, sf))
+    return opts
